@@ -13,15 +13,15 @@ pub fn run(ctx: &Ctx) -> Outcome {
     for drv in fsm_all(ctx.tier, d) {
         run_and_report(ctx, &drv, &mut out);
     }
-    for drv in fsm_batch_all(ctx.tier, ctx.tier.pick(5, 6)) {
+    for drv in fsm_batch_all(ctx.tier, ctx.tier.pick(6, 6)) {
         run_and_report(ctx, &drv, &mut out);
     }
     for la in [false, true] {
-        run_and_report(ctx, &fin_tail_recovery(ctx.tier, la, ctx.tier.pick(6, 8)), &mut out);
+        run_and_report(ctx, &fin_tail_recovery(ctx.tier, la, ctx.tier.pick(7, 8)), &mut out);
     }
     // closing on a probing path (a probe-sized tail, data written behind an outstanding probe)
     for (path, r) in [(None, 1usize), (Some(1000usize), 1), (Some(1000), 0)] {
-        run_and_report(ctx, &mtu_close(ctx.tier, path, r, ctx.tier.pick(6, 8)), &mut out);
+        run_and_report(ctx, &mtu_close(ctx.tier, path, r, ctx.tier.pick(7, 8)), &mut out);
     }
     // FIN emission under loss (found F14): every plan of <= 2 deviations on the core scenarios
     let always = |_: &RunLog, _: &WireEventLite| true;
